@@ -10,6 +10,7 @@ D7 purity: no statics / thread-locals, no ambient-state std calls on the decode 
 """
 from facts import callee_of, op_place, op_local, place_key
 from common import loc_of
+import hirutil as H
 
 SECTIONS = ['general', 'editor', 'metadata', 'difficulty', 'events', 'timing_points', 'colors',
             'hit_objects', 'variables', 'catch_the_beat', 'mania']
@@ -613,6 +614,34 @@ def let_bindings(hfn):
     return res
 
 
+def resolve_expr(e, lets, depth=0):
+    """follow lets and project fields of struct literals: `sections.editor` with
+    `let sections = S { editor: X, .. }` is X"""
+    while isinstance(e, dict) and depth < 12:
+        depth += 1
+        k = e.get('k')
+        if k == 'local' and e.get('name') in lets and lets[e['name']] is not e:
+            nxt = lets[e['name']]
+            # a binding that only renames itself (`let x = x;` after inlining) ends the chase
+            if isinstance(nxt, dict) and nxt.get('k') == 'local' and nxt.get('name') == e['name']:
+                return e
+            e = nxt
+            continue
+        if k == 'block' and not e.get('stmts') and 'expr' in e:
+            e = e['expr']
+            continue
+        if k == 'field':
+            base = resolve_expr(e['e'], lets, depth)
+            if isinstance(base, dict) and base.get('k') == 'struct':
+                hit = [f for f in base.get('fields', []) if f['n'] == e['n']]
+                if hit:
+                    e = hit[0]['e']
+                    continue
+            return {'k': 'field', 'e': base, 'n': e['n'], 'ty': e.get('ty')}
+        return e
+    return e
+
+
 def resolve_chain(e, lets, depth=0):
     """field chain of e with leading locals replaced by the field chains they are bound to"""
     fc = field_chain(e)
@@ -748,6 +777,13 @@ def check_conversions(facts, out, by_ty):
                         helper_lets[pp['name']] = a2
                     structs = find_structs(h2, tgt)
         if not structs:
+            # the literal may sit in a private helper / method of a helper struct: look at the inlined function
+            vh = H.inlined_fn(facts, hfn, depth=1, keep=('::from', '::into', '::default', '::create'))
+            if find_structs(vh, tgt):
+                structs = find_structs(vh, tgt)
+                helper_lets = let_bindings(vh)
+                hfn = vh
+        if not structs:
             if kind == 'from_state' and tgt == src_adt:
                 continue
             # e.g. From<DifficultyState> for Difficulty { state.difficulty }
@@ -834,6 +870,7 @@ def _check_field_init(facts, kind, tgt, fname, e, lets, pname, state_of, decoder
     init = lets.get(root)
     if init is None:
         return False, 'field `%s`: source `%s` has unknown origin' % (fname, root)
+    init = resolve_expr(init, lets)
     return _check_sub_value(init, pname, state_of, decoder_of_state, kind, fname, root, lets)
 
 
